@@ -17,7 +17,8 @@ Driver for C07 (texts travel as hex of their UTF-8 bytes, `_` = empty).
           S oracle, independent of the printer model: the text is read with `readStd` in `envOf term`, its sort must be
           the term's, its value the term's under every interpretation given (those evaluating a division by zero skipped)
     runstd <hex script>                            → accepted <ncommands> | rejected <hex msg> | unreadable <hex msg>
-    printable <term>                               → yes|no ordered|unordered   (hypotheses of read_toSexp / print_sound in envOf term)
+    printable <term>                               → yes|no guard|noguard dag|nodag   (Printable / avGuard / DagOK in envOf term:
+                                                     the hypotheses of read_toSexp, print_sound, printDag_sound)
     chk_script <k> <interp>*k <term> <hex script>  → ok <compared> <skipped> | fail …
           accepted by `runStd`; the live assertions are exactly one term, with the term's value; every free symbol of the
           term is declared
@@ -158,7 +159,9 @@ def pChkScript : P String := do
 /-- does the term satisfy the hypotheses of `read_toSexp` in its own environment? -/
 def pPrintable : P String := do
   let t ← term
-  return (if Printer.Printable (envOf "ALL" t) [] t then "yes" else "no") ++ (if Printer.avOrdered t then " ordered" else " unordered")
+  let env := envOf "ALL" t
+  return (if Printer.Printable env [] t then "yes" else "no") ++ (if Printer.avGuard t then " guard" else " noguard")
+    ++ (if Printer.DagOK (Printer.dagNames t) env t then " dag" else " nodag")
 
 def main : IO Unit := loop fun line =>
   let toks := Wire.tokens line
